@@ -231,6 +231,9 @@ class SphinxProject:
         env.clear_doc(docname)
         self.take_warnings()
         app.builder.read_doc(docname)
+        # Sphinx caches the pickled doctree per docname; drop it so the re-read document is returned
+        env._pickled_doctree_cache.pop(docname, None)
+        env._write_doc_doctree_cache.pop(docname, None)
         doctree = env.get_doctree(docname)
         if post_transforms:
             env.apply_post_transforms(doctree, docname)
